@@ -255,3 +255,14 @@ Theorem inconsistent_tests_break_contract :
   hash_elems nat fkey seed_tests fs [0] <> hash_elems nat fkey seed_tests fs [2].
 Proof. exact inconsistent_tests_break_contract_l. Qed.
 Print Assumptions inconsistent_tests_break_contract.
+
+(** Every key callable that is given is applied by [__eq__] and by [__hash__] and advertised on the
+    Attribute — also a falsy one (fix cb57cf9); the three sites of this run's source say so. *)
+Theorem honoured_keys_applied : forall ts, keys_honoured ts = true ->
+  forall f, f_key ts f = f_key_given f /\ f_key_eq ts f = f_key_given f /\ attr_key ts f = f_key_given f.
+Proof. exact honoured_keys_applied_l. Qed.
+Print Assumptions honoured_keys_applied.
+
+Theorem source_keys_honoured : keys_honoured Gen.C04_consts.src_key_tests = true.
+Proof. exact source_keys_honoured_l. Qed.
+Print Assumptions source_keys_honoured.
